@@ -77,6 +77,20 @@ def run_one(opener, data, limit_s=5.0):
             pass
 
 
+def still_hangs(fn, limit_s=60.0):
+    """second opinion for a watchdog hit: does the same call still not return within a 12x longer limit?"""
+    signal.setitimer(signal.ITIMER_REAL, limit_s)
+    try:
+        fn()
+        return False
+    except Timeout:
+        return True
+    except BaseException:  # noqa: BLE001
+        return False
+    finally:
+        signal.setitimer(signal.ITIMER_REAL, 0)
+
+
 def main():
     fmt, seed, n = sys.argv[1], int(sys.argv[2]), int(sys.argv[3])
     budget = float(sys.argv[4]) if len(sys.argv) > 4 else 400.0
@@ -134,7 +148,8 @@ def main():
             try:
                 HDD(root).open(rng.choice(G[:k]))
             except Timeout:
-                fails.append({"kind": "timeout", "mutation": f"snapshot parents {parents}", "detail": "HDD.open did not return within 5s"})
+                if still_hangs(lambda: HDD(root).open(rng.choice(G[:k]))):
+                    fails.append({"kind": "timeout", "mutation": f"snapshot parents {parents}", "detail": "HDD.open did not return within 5s and again not within 60s"})
             except MemoryError:
                 fails.append({"kind": "memory", "mutation": f"snapshot parents {parents}", "detail": "MemoryError"})
             except BaseException:  # noqa: BLE001
@@ -164,8 +179,15 @@ def main():
                     s_.seek(pt * 512)
                     s_.read(2048)
                 except Timeout:
-                    fails.append({"kind": "timeout", "mutation": f"storages {ranges} read at sector {pt}", "detail": "no return within 5s"})
-                    break
+                    def again(pt=pt):
+                        s2 = HDD(root).open(G[0])
+                        s2.align = 512
+                        s2.seek(pt * 512)
+                        s2.read(2048)
+
+                    if still_hangs(again):
+                        fails.append({"kind": "timeout", "mutation": f"storages {ranges} read at sector {pt}", "detail": "no return within 5s and again not within 60s"})
+                        break
                 except MemoryError:
                     fails.append({"kind": "memory", "mutation": f"storages {ranges} read at sector {pt}", "detail": "MemoryError"})
                     break
@@ -180,6 +202,7 @@ def main():
         return
     evals = 0
     distinct = 0
+    slow = 0
     fails = []
     t0 = time.time()
     for desc, data, regions, opener in bases:
@@ -189,9 +212,17 @@ def main():
             evals += 1
             distinct += 1
             kind, detail = run_one(opener, mdata)
+            if kind == "timeout":
+                # a count field set to 2**31 makes cstruct parse entries until the end of the file: work proportional to the file size
+                # is bounded work, and 5 s is a heuristic that a loaded machine can exceed -- a timeout only counts when the same input still
+                # does not return within 12x the limit (a genuinely unbounded loop never does)
+                kind, detail = run_one(opener, mdata, limit_s=60.0)
+                slow += 1
+                if kind != "timeout":
+                    continue
             if kind in ("timeout", "memory"):
                 fails.append({"kind": kind, "base": desc, "mutation": mdesc, "detail": detail})
-    json.dump({"evaluations": evals, "distinct": distinct, "failures": fails[:10]}, sys.stdout)
+    json.dump({"evaluations": evals, "distinct": distinct, "slow_but_returned_or_retried": slow, "failures": fails[:10]}, sys.stdout)
 
 
 if __name__ == "__main__":
